@@ -7,6 +7,7 @@ EXTENDS LinksParse, Json
 CONSTANTS MaxItems,   \* longest item sequence for the shapes with one link
           PairItems,  \* longest item sequence for the shapes with two links or inside a sub-command
           OptItems,   \* longest item sequence for the shapes with an Optional source
+          Wide,       \* (round 4) TRUE: also the link sets WideLinkSets (thorough tier)
           Emit
 
 L(srcs, fn, tgt) == [srcs |-> srcs, fn |-> fn, tgt |-> tgt]
@@ -16,13 +17,22 @@ LinkSets == {<<L(<<"a">>, "id", "t")>>, <<L(<<"a">>, "one", "t")>>, <<L(<<"a", "
              <<L(<<"a", "b">>, "lin", "mp"), L(<<"g">>, "grp", "t")>>, <<L(<<"b", "a">>, "lin", "t"), L(<<"a">>, "one", "mp")>>,
              \* Optional sources: an init_arg of a class argument, the whole Optional[Class] argument, a plain Optional argument
              <<L(<<"sl">>, "id", "t")>>, <<L(<<"sl">>, "tot", "t")>>, <<L(<<"sl">>, "id", "mp")>>, <<L(<<"s">>, "cls", "t")>>,
-             <<L(<<"o">>, "id", "t")>>, <<L(<<"o">>, "tot", "mp")>>}
+             <<L(<<"o">>, "id", "t")>>, <<L(<<"o">>, "tot", "mp")>>,
+             \* (round 4) compute functions that raise; several sources with an Optional one (total and partial)
+             <<L(<<"a">>, "par", "t")>>, <<L(<<"b">>, "one", "mp"), L(<<"a">>, "par", "t")>>,
+             <<L(<<"o", "a">>, "lino", "t")>>, <<L(<<"sl", "a">>, "linp", "t")>>, <<L(<<"o">>, "paro", "mp")>>}
 OptLinkSets == {ls \in LinkSets : \E i \in DOMAIN ls : \E j \in DOMAIN ls[i].srcs : ls[i].srcs[j] \in {"o", "s", "sl"}}
-SubLinkSets == {<<L(<<"a", "b">>, "lin", "t")>>, <<L(<<"g">>, "grp", "mp")>>, <<L(<<"a", "b">>, "lin", "mp"), L(<<"g">>, "grp", "t")>>}
-Shapes == {[links |-> ls, mkind |-> mk, req |-> rq, sub |-> sb] :
-             ls \in LinkSets, mk \in {"init", "list", "grp"}, rq \in BOOLEAN, sb \in BOOLEAN}
+ParSub == <<L(<<"a">>, "par", "t")>>      \* (round 4) a compute function that raises, inside a sub-command
+SubLinkSets == {ParSub, <<L(<<"a", "b">>, "lin", "t")>>, <<L(<<"g">>, "grp", "mp")>>, <<L(<<"a", "b">>, "lin", "mp"), L(<<"g">>, "grp", "t")>>}
+\* (round 4) the parser that declares the links is used through ActionParser
+ApLinkSets == {<<L(<<"a">>, "one", "t")>>, <<L(<<"a", "b">>, "lin", "mp")>>, <<L(<<"b">>, "one", "mp"), L(<<"a">>, "par", "t")>>}
+Shapes == {[links |-> ls, mkind |-> mk, req |-> rq, sub |-> sb, ap |-> ap] :
+             ls \in LinkSets, mk \in {"init", "list", "grp"}, rq \in BOOLEAN, sb \in BOOLEAN, ap \in BOOLEAN}
+WideLinkSets == {<<L(<<"sl", "a">>, "linp", "t")>>, <<L(<<"o">>, "paro", "mp")>>}
 ShapeOK(sh) == /\ (~HasM(sh) => sh.mkind = "init")
+               /\ (sh.links \in WideLinkSets => Wide)
                /\ (sh.sub => sh.links \in SubLinkSets)
+               /\ (sh.ap => (sh.links \in ApLinkSets /\ ~sh.sub /\ sh.mkind \in {"init", "grp"}))
                /\ ((sh.links \in OptLinkSets /\ HasM(sh)) => sh.mkind \in {"init", "grp"})
 TheShapes == {sh \in Shapes : ShapeOK(sh)}
 
@@ -61,23 +71,28 @@ TgtItems(sh, chans) ==
         ELSE IF sh.mkind = "init" THEN
              {It(ch, "m", sp) : ch \in chans \ {"env"}, sp \in {Spec("Base", NoArgs), Spec("Sub", NoArgs), Spec("NoP", NoArgs), Spec("Base", P5), Spec("Sub", P5Q3)}}
              \cup {It(ch, "mq", Int(3)) : ch \in chans \cap {"argv"}} \cup {It(ch, "mp", Int(5)) : ch \in chans \cap {"argv"}}
-             \cup (IF sh.sub \/ "argv" \notin chans THEN {} ELSE {It("file", "m", Spec("Sub", Q3)), It("cfgfile", "m", Spec("Base", P5))})
+             \cup (IF sh.sub \/ sh.ap \/ "argv" \notin chans THEN {} ELSE {It("file", "m", Spec("Sub", Q3)), It("cfgfile", "m", Spec("Base", P5))})
         ELSE IF sh.mkind = "list" THEN
              {It(ch, "m", Specs(s)) : ch \in chans \ {"env"},
                 s \in {<<Spec("Base", NoArgs)>>, <<Spec("Base", NoArgs), Spec("Sub", NoArgs)>>, <<Spec("NoP", NoArgs), Spec("Base", Q3)>>,
                        <<Spec("Base", P5), Spec("Sub", NoArgs)>>, <<Spec("NoP", NoArgs)>>, << >>}}
         ELSE {It(ch, "m", sp) : ch \in chans \ {"env"}, sp \in {Spec("Base", Q3), Spec("Base", P5Q3), Spec("Base", P5)}}
              \cup {It(ch, "mq", Int(3)) : ch \in chans \cap {"argv"}} \cup {It(ch, "mp", Int(5)) : ch \in chans \cap {"argv", "cfg", "obj"}}
-             \cup (IF sh.sub \/ "argv" \notin chans THEN {} ELSE {It("file", "m", Spec("Base", P5Q3)), It("cfgfile", "m", Spec("Base", Q3))}))
-ItemsOf(sh, chans) == SrcItems(sh, chans) \cup TgtItems(sh, chans)
+             \cup (IF sh.sub \/ sh.ap \/ "argv" \notin chans THEN {} ELSE {It("file", "m", Spec("Base", P5Q3)), It("cfgfile", "m", Spec("Base", Q3))}))
+\* (round 4) a default config file of the parser gives a source / the target itself
+DcfLinkSets == {<<L(<<"a">>, "par", "t")>>, <<L(<<"a", "b">>, "lin", "t")>>, <<L(<<"b">>, "one", "mp"), L(<<"a">>, "par", "t")>>}
+DcfItems(sh, chans) == IF sh.links \in DcfLinkSets /\ ~sh.sub /\ ~sh.ap /\ "argv" \in chans THEN {It("dcf", "a", Int(3)), It("dcf", "t", Int(5))} ELSE {}
+ItemsOf(sh, chans) == SrcItems(sh, chans) \cup TgtItems(sh, chans) \cup DcfItems(sh, chans)
 
 \* parse_args: environment variables are read before the command line, whatever the order of the call
-EnvFirst(s) == \A i, j \in DOMAIN s : (i < j /\ s[j].chan = "env") => s[i].chan = "env"
+\* (and the default config file before the environment)
+EnvFirst(s) == \A i, j \in DOMAIN s : /\ ((i < j /\ s[j].chan = "env") => s[i].chan \in {"env", "dcf"})
+                                       /\ ((i < j /\ s[j].chan = "dcf") => s[i].chan = "dcf")
 \* --s.limit on a class that has no such parameter is an invalid input (it fails for a reason that has nothing to do
 \* with links): such sequences are left out
 NoBadSl(s) == ~(\E i, j \in DOMAIN s : s[i].key = "sl" /\ s[j].key = "s" /\ s[j].val.k = "spec" /\ s[j].val.c = "SrcNoL")
-NoDupEnv(s) == \A i, j \in DOMAIN s : (i # j /\ s[i].chan = "env") => s[i].key # s[j].key \/ s[j].chan # "env"
-Bound(sh) == IF sh.links \in OptLinkSets THEN OptItems ELSE IF Len(sh.links) > 1 \/ sh.sub THEN PairItems ELSE MaxItems
+NoDupEnv(s) == \A i, j \in DOMAIN s : (i # j /\ s[i].chan \in {"env", "dcf"}) => s[i].key # s[j].key \/ s[j].chan # s[i].chan
+Bound(sh) == IF sh.links \in OptLinkSets THEN OptItems ELSE IF Len(sh.links) > 1 \/ (sh.sub /\ sh.links # ParSub) \/ (sh.ap /\ HasM(sh)) THEN PairItems ELSE MaxItems
 ArgsSeqs(sh) == {s \in UNION {[1..n -> ItemsOf(sh, {"env", "cfg", "argv"})] : n \in 0..Bound(sh)} : EnvFirst(s) /\ NoDupEnv(s) /\ NoBadSl(s)}
 \* parse_object: one dict; keys are distinct, the order is immaterial (one representative)
 ObjSeqs(sh) == {s \in UNION {[1..n -> ItemsOf(sh, {"obj"})] : n \in 1..Bound(sh)} :
@@ -94,27 +109,44 @@ Case == phase = "case"
 
 Out  == AlgParse(shape, items)
 Dmp  == AlgDump(shape, Out.c)
-Re   == AlgReparse(shape, Dmp)
+Dcf  == DcfItemsOf(items)
+Re   == AlgReparse(shape, Dcf, Dmp)
 Sv   == AlgSaveMulti(shape, Out.c)
-SvRe == AlgSaveReparse(shape, Sv)
+SvRe == AlgSaveReparse(shape, Dcf, Sv)
+Sd   == AlgDumpSD(shape, Dcf, Out.c)
+SdRe == AlgReparse(shape, Dcf, Sd)
+HIn  == Changed(shape, Out.c)
+HOut == AlgHist(shape, Dcf, HIn)
 
 \* C15, design level: the transcription satisfies every clause of the property ...
-ParseRefinesRef == Case => RefParseOK(shape, items, Out)
+ParseRefinesRef == (Case /\ ~shape.ap /\ ~SubEnvRaises(shape, items) /\ ~DcfRaises(shape, items)) => RefParseOK(shape, items, Out)
+\* the recorded deviation SubEnvRaises is one: nothing supplies the target, the final sources are fine, and the parse fails
+SubEnvDeviationExact == (Case /\ SubEnvRaises(shape, items) /\ ~RaisesOn(shape, items) /\ \A n \in DOMAIN items : ~SuppliesTarget(items[n]))
+                          => SubEnvDeviation(shape, items, Out)
+DcfDeviationExact == (Case /\ DcfRaises(shape, items) /\ ~RaisesOn(shape, items) /\ \A n \in DOMAIN items : ~SuppliesTarget(items[n]))
+                          => DcfDeviation(shape, items, Out)
 \* ... the dump hides the target except in the recorded deviation (items of a list of classes) ...
-DumpRefinesRef == (Case /\ Out.ok /\ ~ListItemsKeepTarget(shape, Out.c)) => DumpHidesTarget(shape, Dmp)
+DumpRefinesRef == (Case /\ ~shape.ap /\ Out.ok /\ ~ListItemsKeepTarget(shape, Out.c)) => DumpHidesTarget(shape, Dmp)
 DeviationExact == (Case /\ Out.ok /\ ListItemsKeepTarget(shape, Out.c)) => ~DumpHidesTarget(shape, Dmp)
 \* ... and re-parsing the dump reconstructs the configuration
-ReparseRefinesRef == (Case /\ Out.ok) => Reconstructed(shape, Out.c, Re)
+ReparseRefinesRef == (Case /\ ~shape.ap /\ Out.ok) => Reconstructed(shape, Out.c, Re)
 \* ... save() in both modes writes no file that contains a target (the single-file mode is dump), and the saved
 \* configuration reconstructs the targets as well
-SaveRefinesRef == (Case /\ Out.ok /\ ~ListItemsKeepTarget(shape, Out.c)) =>
+SaveRefinesRef == (Case /\ ~shape.ap /\ Out.ok /\ ~ListItemsKeepTarget(shape, Out.c)) =>
                     (SaveHidesTarget(shape, Sv.main, Sv.sub) /\ Reconstructed(shape, Out.c, SvRe))
+\* ... dump(skip_default=True) hides the targets as well, and re-parsing it gives them back
+SkipDefaultRefinesRef == (Case /\ ~shape.ap /\ Out.ok /\ ~ListItemsKeepTarget(shape, Out.c)) =>
+                           (DumpHidesTarget(shape, Sd) /\ Reconstructed(shape, Out.c, SdRe))
+\* ... and when the caller edits the sources of the returned namespace and parses it again, the targets follow
+HistRefinesRef == (Case /\ ~shape.ap /\ Out.ok) => HistOK(shape, HIn, HOut)
+\* the recorded deviation ApDropsLinks is one: a plain target never holds the function of its sources
+ApDeviationExact == (Case /\ shape.ap /\ "t" \in Targets(shape) /\ Out.ok) => (~TargetEq(shape, Out.c) /\ ApDropsLinks(shape, items, Out, Dmp))
 \* non-vacuity of the Optional domain: a live source holding None overrides a supplied / default target with fn(None)
-NoneIsAValue == (Case /\ Out.ok) => \A i \in DOMAIN shape.links :
+NoneIsAValue == (Case /\ ~shape.ap /\ Out.ok) => \A i \in DOMAIN shape.links :
                   (Live(Out.c, shape.links[i]) /\ shape.links[i].fn = "id" /\ SrcVal(Out.c, shape.links[i].srcs[1]) = NoneV /\ shape.links[i].tgt = "t")
                     => Out.c.t = NoneV
 \* parsing is idempotent on the sources: the targets of a parsed configuration are a function of its sources only
-TargetsFunctionOfSources == (Case /\ Out.ok) => \A i \in DOMAIN shape.links : TargetEqLink(shape, Out.c, shape.links[i])
+TargetsFunctionOfSources == (Case /\ ~shape.ap /\ Out.ok) => \A i \in DOMAIN shape.links : TargetEqLink(shape, Out.c, shape.links[i])
 
 \* link creation: every ordered pair of links over a small key space
 Keys == {"a", "b", "t", "t2"}
@@ -129,6 +161,9 @@ CfgJson(c) == c
 EmitCase == (Case /\ Emit) =>
   PrintT(ToJson([shape |-> shape, api |-> api, items |-> items, ok |-> Out.ok, c |-> Out.c,
                  dump |-> Dmp, dev |-> (Out.ok /\ ListItemsKeepTarget(shape, Out.c)), reok |-> Re.ok, rec |-> Re.c,
-                 smain |-> Sv.main, ssub |-> Sv.sub, sreok |-> SvRe.ok, srec |-> SvRe.c]))
+                 smain |-> Sv.main, ssub |-> Sv.sub, sreok |-> SvRe.ok, srec |-> SvRe.c,
+                 sd |-> Sd, sdreok |-> SdRe.ok, sdrec |-> SdRe.c,
+                 hin |-> HIn, hok |-> HOut.ok, hc |-> HOut.c, raises |-> RaisesOn(shape, items), apdev |-> ApDropsLinks(shape, items, Out, Dmp),
+                 subdev |-> SubEnvDeviation(shape, items, Out), dcfdev |-> DcfDeviation(shape, items, Out)]))
 ASSUME PrintT(<<"SEEDS", 2 * Cardinality(TheShapes)>>)
 =============================================================================
